@@ -34,7 +34,7 @@ func newC05World(state int) *c05World {
 		c.a = c.w.ConnectAndAnnounce("A", "dA", ents)
 	}
 	c.b = c.w.ConnectAndAnnounce("B", "dB", ents)
-	if state == 2 {
+	if state >= 2 {
 		c.a.Deliver(c.a.SubscribeCall(cliAddr("A", "e1f1", true), srvAddr("L1lc", true), model.FeatureTypeTypeLoadControl))
 		c.a.Deliver(c.a.BindCall(cliAddr("A", "e1f1", true), srvAddr("L1lc", true), model.FeatureTypeTypeLoadControl))
 		lf := c.w.L.FeatureByAddress(world.FAddr(world.LocalAddr, []uint{1}, lLCClient))
@@ -44,6 +44,11 @@ func newC05World(state int) *c05World {
 		}
 		lf.AddResultCallback(func(api.ResponseMessage) {})
 		c.w.L.FeatureByAddress(srvAddr("L1lc", true)).SetData(fnLimit, limitList(1, 1, 2))
+	}
+	if state == 3 {
+		// the application approves every write it is asked about, from the goroutine the stack starts for the callback
+		srv := c.w.L.FeatureByAddress(srvAddr("L1lc", true))
+		_ = srv.AddWriteApprovalCallback(func(m *api.Message) { srv.ApproveOrDenyWrite(m, model.ErrorType{ErrorNumber: 0}) })
 	}
 	rt.WaitIdle()
 	return c
@@ -431,7 +436,7 @@ func c05Families(thorough bool) []*engine.IFamily {
 				rp = seeds
 			}
 			for _, m := range gen(seed, chunk%chunksPerSeed) {
-				for state := 0; state < 3; state++ {
+				for state := 0; state < 4; state++ {
 					r.Evals++
 					r.Nontrivial++
 					for _, v := range c05Run(state, m.raw, rp) {
@@ -456,7 +461,7 @@ func c05Families(thorough bool) []*engine.IFamily {
 	fams := []*engine.IFamily{
 		{Name: "valid-seeds", Chunks: nSeeds, Rule: "each of the 22 valid seed messages delivered unchanged in the three connection states, then every seed replayed, then discovery reads on both connections (the harness itself must not raise alarms on valid traffic); non-trivial: all",
 			Run: run("seed", 1, func(s c05Seed, _ int) []mutant { return []mutant{{"unchanged", s.raw}} }, true)},
-		{Name: "single-mutants", Chunks: nSeeds * 4, Rule: "all single field mutations (remove, null, empty of its kind, wrong kind, unknown value, other valid value: the other peer's/local device address, neighbouring number) of every node of the JSON tree of each of the 22 seed messages x 3 connection states (just connected; after discovery; after discovery+subscription+binding+pending request), each on a fresh world, followed by valid registry traffic of the other peer (subscribe, bind, write, unbind, unsubscribe), a local data change, and a valid discovery read on the mutant's and on the other peer's connection; non-trivial: all",
+		{Name: "single-mutants", Chunks: nSeeds * 4, Rule: "all single field mutations (remove, null, empty of its kind, wrong kind, unknown value, other valid value: the other peer's/local device address, neighbouring number) of every node of the JSON tree of each of the 22 seed messages x 4 connection states (just connected; after discovery; after discovery+subscription+binding+pending request; the same with a write approval callback that approves at once), each on a fresh world, followed by valid registry traffic of the other peer (subscribe, bind, write, unbind, unsubscribe), a local data change, and a valid discovery read on the mutant's and on the other peer's connection; non-trivial: all",
 			Run: run("single", 4, func(s c05Seed, sub int) []mutant {
 				var out []mutant
 				for i, m := range singleMutants(s) {
